@@ -165,7 +165,8 @@ class FactoryRun:
         self.build_error = None
         self.store_of = {}          # id(store) -> edge id
         self.hooks_instant = []
-        self.hooks_event = []
+        self.hooks_event = [self.scan_ready]
+        self.avail_seen = {}
 
     # -- attribution ---------------------------------------------------------------------------------
     def actor(self):
@@ -202,6 +203,8 @@ class FactoryRun:
             if ev.triggered:
                 t.state = "granted"
                 t.granted_t, t.granted_seq = env.now, env.seq
+                if kind == "g":
+                    run.scan_ready(eid)
                 run.log.append(("grant", env.seq, env.now, eid, t.id, kind, t.actor))
             else:
                 orig = ev.succeed
@@ -211,6 +214,8 @@ class FactoryRun:
                     if _t.state == "pending":
                         _t.state = "granted"
                         _t.granted_t, _t.granted_seq = env.now, env.seq
+                        if _t.kind == "g":
+                            run.scan_ready(eid)
                         run.log.append(("grant", env.seq, env.now, eid, _t.id, _t.kind, _t.actor))
                     return r
                 ev.succeed = hooked
@@ -287,6 +292,17 @@ class FactoryRun:
                 run.log.append(("canput", env.seq, env.now, eid, bool(r), run.actor()))
                 return r
             edge.can_put = can_put
+
+    def scan_ready(self, eid=None):
+        """Log ('avail', ...) for items that have become retrievable (first seen in an edge's ready list)."""
+        env = self.env
+        for e in ([eid] if eid is not None else list(self.edges)):
+            seen = self.avail_seen.setdefault(e, set())
+            for it in self.edge_ready(e):
+                iid = getattr(it, "id", None)
+                if iid not in seen:
+                    seen.add(iid)
+                    self.log.append(("avail", env.seq, env.now, e, iid))
 
     # -- contents probes -----------------------------------------------------------------------------
     def edge_items(self, eid):
